@@ -190,6 +190,12 @@ def exec_step(world, step, idx):
         world.count("sim_seconds", EXPIRY + 2 * PERIOD + 1.0)
     else:
         raise ValueError("unknown step %r" % (step,))
+    if world.running and op not in ("advance", "quiesce"):
+        # the reactor turn ends: whatever the server scheduled "as soon as possible" runs now
+        # (commands that arrived in one segment have all been handled before)
+        r = world.reactor
+        if any(c.getTime() <= r.seconds() for c in r.getDelayedCalls()):
+            world.advance(0.0, step=idx)
     return world.history[n0:]
 
 
